@@ -35,6 +35,9 @@ MUT = {
         "attrtype-named-dims-become-unknown": [("src/spox/_attributes.py", "                dtype_to_tensor_type(value.dtype),\n                value.shape,\n", "                dtype_to_tensor_type(value.dtype),\n                None if value.shape is None else tuple(d if isinstance(d, int) else None for d in value.shape),\n"), ("src/spox/_attributes.py", "            type_proto = make_sequence_type_proto(value.elem_type._to_onnx())\n", "            _e = value.elem_type\n            type_proto = make_sequence_type_proto(make_tensor_type_proto(dtype_to_tensor_type(_e.dtype), None if _e.shape is None else tuple(d if isinstance(d, int) else None for d in _e.shape)) if isinstance(_e, _type_system.Tensor) else _e._to_onnx())\n")],
         "variadic-list-aliased-not-copied": [("src/spox/_fields.py", "                value = tuple(value)\n                setattr(self, field.name, value)\n", "                if not isinstance(value, (list, tuple)):\n                    value = tuple(value)\n                setattr(self, field.name, value)\n")],
     },
+    "C11-round4": {
+        "dtype-memo-keyed-by-str": [("src/spox/_utils.py", "    err_msg = f\"{dtype_like} is not a valid ONNX tensor element type.\"\n    if dtype_like is None:", "    err_msg = f\"{dtype_like} is not a valid ONNX tensor element type.\"\n    try:\n        _key = np.dtype(dtype_like).str\n        if _key in _MEMO:\n            return _MEMO[_key]\n    except Exception:\n        _key = None\n    if dtype_like is None:"), ("src/spox/_utils.py", "    try:\n        return onnx.helper.np_dtype_to_tensor_dtype(dtype)\n", "    try:\n        _r = onnx.helper.np_dtype_to_tensor_dtype(dtype)\n        if _key is not None:\n            _MEMO[_key] = _r\n        return _r\n"), ("src/spox/_utils.py", "def tensor_type_to_dtype(ttype: int)", "_MEMO: dict = {}\n\n\ndef tensor_type_to_dtype(ttype: int)")],
+    },
     "C11-repeat": {
         "trim-end-located-by-name-lookup": [("src/spox/_node.py", "        while len(input_names) > self.min_input and not input_names[-1]:\n            input_names.pop()\n", "        _used = [n for n in input_names if n]\n        _end = input_names.index(_used[-1]) + 1 if _used else 0\n        input_names = input_names[: max(_end, min(self.min_input, len(input_names)))]\n")],
         "inputs-deduplicated-by-var": [("src/spox/_node.py", "        input_names = [scope.var[var] if var is not None else \"\" for var in self.inputs]\n", "        _names = {}\n        for var in self.inputs:\n            _names.setdefault(id(var) if var is not None else object(), scope.var[var] if var is not None else '')\n        input_names = list(_names.values())\n")],
@@ -42,6 +45,11 @@ MUT = {
     "C18-compose": {
         # the Builder starts to care about the node's class: only StandardNode applications are relaxed to the LCA
         "scope-relaxation-only-for-standard-nodes": [("src/spox/_build.py", "            self.scope_tree.scope_of[node] = self.scope_tree.lca(\n                graph, self.scope_tree.scope_of[node]\n            )\n", "            if type(node).__mro__[1].__name__ != 'Node':  # only non-plain nodes are relaxed\n                self.scope_tree.scope_of[node] = self.scope_tree.lca(\n                    graph, self.scope_tree.scope_of[node]\n                )\n")],
+    },
+    "C18-round4": {
+        "nested-value-type-must-equal-declared": [("src/spox/_value_prop.py", "                elem.type._subtype(self.type.elem_type)\n", "                elem.type == self.type.elem_type\n"), ("src/spox/_value_prop.py", "                isinstance(self.value, PropValue)\n                and PropValue(self.type.elem_type, self.value.value).check()\n", "                isinstance(self.value, PropValue)\n                and self.value.type == self.type.elem_type\n                and PropValue(self.type.elem_type, self.value.value).check()\n")],
+        "nested-value-type-must-equal-sequence-only": [("src/spox/_value_prop.py", "                elem.type._subtype(self.type.elem_type)\n", "                elem.type == self.type.elem_type\n")],
+        "inline-rejects-untyped-inputs": [("src/spox/_inline.py", "            if var.type is not None and not (\n                var.type._subtype(Type._from_onnx(i.type))\n            ):\n", "            if not (\n                var.unwrap_type()._subtype(Type._from_onnx(i.type))\n            ):\n")],
     },
     "C18-repeat": {
         "inputs-deduplicated-by-var": [("src/spox/_node.py", "        input_names = [scope.var[var] if var is not None else \"\" for var in self.inputs]\n", "        _names = {}\n        for var in self.inputs:\n            _names.setdefault(id(var) if var is not None else object(), scope.var[var] if var is not None else '')\n        input_names = list(_names.values())\n")],
